@@ -237,3 +237,28 @@ Example C14_nonvacuous :
   (let o := cr_whole gen_table false [78; 111; 116; 69; 113; 117; 97; 108; 84; 105; 108; 100; 101; 59; 33] in
      (o_status o, o_q o)) = (CrDone [8770; 824], [33]).
 Proof. vm_compute. repeat split. Qed.
+
+(* the premise [clean m] (and the cr_new premise) of the C14_interp_* theorems holds on the regenerated html table right
+   after EVERY ConsumeCharRef terminator (TokIR/CharRefClean.v, Inst/InstCharRefClean.v): for a machine satisfying the
+   control invariant HtmlTI (Props/C04.v) and CI - reconsume set and CR pending imply current_char = LF; both true of
+   every fresh tokenizer and kept by every step - a step of the table that starts a reference ends clean, with a fresh
+   reference state *)
+From HV Require TokIR.CharRefClean Inst.InstTermination Inst.InstCharRefClean.
+Theorem C14_consume_charref_clean :
+  forall simd ent c1 sk at_eof (m : Interp.mach hstate (list N)),
+  InstTermination.HtmlTI m -> InstCharRefClean.HtmlCI m -> Interp.cref (Interp.mc m) = None ->
+  let m' := fst (Interp.step [] Interp.fq_next Interp.fq_peek (@app N) (fun q => q) Interp.fq_run1 Interp.html_flavour true
+                             Gen.GenHtmlTok.html_table simd ent c1 sk at_eof m) in
+  Interp.cref (Interp.mc m') <> None ->
+  clean m' /\ exists in_attr ad, Interp.cref (Interp.mc m') = Some (Interp.cr_new in_attr ad).
+Proof. exact InstCharRefClean.html_consume_charref_clean. Qed.
+Print Assumptions C14_consume_charref_clean.
+
+Theorem C14_charref_clean_invariant :
+  (forall s0 last q o k, InstCharRefClean.HtmlCI (Interp.mkmach (Interp.init_cfg s0 last false) q o k)) /\
+  (forall simd ent c1 sk at_eof (m : Interp.mach hstate (list N)),
+     InstTermination.HtmlTI m -> InstCharRefClean.HtmlCI m ->
+     InstCharRefClean.HtmlCI (fst (Interp.step [] Interp.fq_next Interp.fq_peek (@app N) (fun q => q) Interp.fq_run1
+                                               Interp.html_flavour true Gen.GenHtmlTok.html_table simd ent c1 sk at_eof m))).
+Proof. exact (conj InstCharRefClean.html_CI_init InstCharRefClean.html_step_keeps_CI). Qed.
+Print Assumptions C14_charref_clean_invariant.
